@@ -73,6 +73,11 @@ func (x *gg) atom() *rt.Term {
 	return rt.A([]string{"a", "b", "c"}[x.n(0, 2, "a")])
 }
 func (x *gg) val(vars bool) *rt.Term {
+	if x.p(8, "stringorlist") {
+		// the same list as a double-quoted string (compact representation) and written out: witnesses that differ only
+		// in representation are one witness
+		return []*rt.Term{gen.Str("ab"), rt.List([]*rt.Term{rt.A("a"), rt.A("b")}, nil), gen.Str("a"), rt.List([]*rt.Term{rt.A("a")}, nil), gen.Str("")}[x.n(0, 4, "sl")]
+	}
 	if x.p(8, "extremenumber") { // integers whose difference does not fit in 64 bits; floats (all floats precede all integers)
 		return []*rt.Term{rt.I(math.MaxInt64), rt.I(math.MinInt64), rt.I(-1), rt.I(1 << 62), rt.I(-(1 << 62) - 2), rt.F(1.5), rt.F(-0.5), rt.F(1e30)}[x.n(0, 7, "xn")]
 	}
